@@ -9,46 +9,54 @@ export GOFLAGS=-mod=mod GOPROXY=off
 unset GOSUMDB GOTOOLCHAIN 2>/dev/null || true
 export GOCACHE="${GOCACHE:-$HOME/.cache/go-build}"
 mkdir -p .work replay evidence
+# every invocation builds into its own directory, so that checks may run in parallel
+case "${1:-}" in
+  C[0-9][0-9]) B=".work/bin-$1" ;;
+  replay) B=".work/bin-replay-$$" ;;
+  *) B=".work/bin-setup" ;;
+esac
+mkdir -p "$B"
+export VERIF_BIN="$PWD/$B"
 
 build_cli() {
   # the real CLI, twice: plain, and with the stdin/stdout server hook injected by overlay
-  mkdir -p .work/hooks
-  cp hooks/cli_server.go.txt .work/hooks/zz_verif_server.go
-  printf '{"Replace":{"/repo/cmd/zz_verif_server.go":"%s/.work/hooks/zz_verif_server.go"}}' "$PWD" > .work/overlay-cli.json
-  (cd /repo && go build -o "$OLDPWD/.work/univers" ./cmd) 2> .work/build-cli.log &&
-  (cd /repo && go build -overlay "$OLDPWD/.work/overlay-cli.json" -o "$OLDPWD/.work/univers-server" ./cmd) 2>> .work/build-cli.log
+  mkdir -p "$B/hooks"
+  cp hooks/cli_server.go.txt "$B/hooks/zz_verif_server.go"
+  printf '{"Replace":{"/repo/cmd/zz_verif_server.go":"%s/hooks/zz_verif_server.go"}}' "$VERIF_BIN" > "$B/overlay-cli.json"
+  (cd /repo && go build -o "$VERIF_BIN/univers" ./cmd) 2> "$B/build-cli.log" &&
+  (cd /repo && go build -overlay "$VERIF_BIN/overlay-cli.json" -o "$VERIF_BIN/univers-server" ./cmd) 2>> "$B/build-cli.log"
   rc=$?
   if [ $rc -ne 0 ]; then
     echo "BUILD-ERROR: the CLI does not build from /repo's working tree" >&2
-    cat .work/build-cli.log >&2
+    cat "$B/build-cli.log" >&2
     exit 2
   fi
 }
 
 build_instr() {
   # instrumented sources + overlay (repo untouched), then the checker linked against them
-  go build -o .work/vinstr ./cmd/vinstr 2> .work/build-instr.log && ./.work/vinstr > .work/vinstr.out 2>> .work/build-instr.log &&
-  go build -tags verif_instr -overlay .work/overlay.json -o .work/vcheck-instr ./cmd/vcheck 2>> .work/build-instr.log
+  go build -o "$B/vinstr" ./cmd/vinstr 2> "$B/build-instr.log" && "$B/vinstr" -out "$VERIF_BIN/instr" -overlay "$VERIF_BIN/overlay.json" > "$B/vinstr.out" 2>> "$B/build-instr.log" &&
+  go build -tags verif_instr -overlay "$B/overlay.json" -o "$B/vcheck-instr" ./cmd/vcheck 2>> "$B/build-instr.log"
   rc=$?
   if [ $rc -ne 0 ]; then
     echo "BUILD-ERROR: the instrumented checker does not build from /repo's working tree" >&2
-    cat .work/build-instr.log >&2
+    cat "$B/build-instr.log" >&2
     exit 2
   fi
   # self-test: the repository's own tests must pass on the instrumented tree
-  if ! (cd /repo && go test -vet=off -count=1 -overlay "$VERIF_ROOT/.work/overlay.json" ./... > "$VERIF_ROOT/.work/instr-selftest.log" 2>&1); then
+  if ! (cd /repo && go test -vet=off -count=1 -overlay "$VERIF_BIN/overlay.json" ./... > "$VERIF_BIN/instr-selftest.log" 2>&1); then
     echo "BUILD-ERROR: the repository's tests do not pass on the instrumented tree (or on the tree itself)" >&2
-    grep -v '^ok' .work/instr-selftest.log | head -30 >&2
+    grep -v '^ok' "$B/instr-selftest.log" | head -30 >&2
     exit 2
   fi
 }
 
 build() {
-  go build -o .work/vcheck ./cmd/vcheck 2> .work/build.log
+  go build -o "$B/vcheck" ./cmd/vcheck 2> "$B/build.log"
   rc=$?
   if [ $rc -ne 0 ]; then
     echo "BUILD-ERROR: the checker does not compile against /repo's working tree" >&2
-    cat .work/build.log >&2
+    cat "$B/build.log" >&2
     exit 2
   fi
 }
@@ -58,7 +66,7 @@ case "${1:-}" in
     build
     build_cli
     build_instr
-    go build -race -o .work/vrace ./cmd/vrace 2> .work/build-race.log || { cat .work/build-race.log >&2; exit 2; }
+    go build -race -o "$B/vrace" ./cmd/vrace 2> "$B/build-race.log" || { cat "$B/build-race.log" >&2; exit 2; }
     echo "setup ok"
     ;;
   replay)
@@ -68,10 +76,10 @@ case "${1:-}" in
     case "$prop" in
       C06|C19)
         build_instr
-        [ "$prop" = C19 ] && { go build -race -o .work/vrace ./cmd/vrace 2> .work/build-race.log || exit 2; }
-        exec ./.work/vcheck-instr -replay "$2" ;;
+        [ "$prop" = C19 ] && { go build -race -o "$B/vrace" ./cmd/vrace 2> "$B/build-race.log" || exit 2; }
+        "$B/vcheck-instr" -replay "$2"; rc=$?; rm -rf "$B"; exit $rc ;;
     esac
-    exec ./.work/vcheck -replay "$2"
+    "$B/vcheck" -replay "$2"; rc=$?; rm -rf "$B"; exit $rc
     ;;
   C[0-9][0-9])
     build
@@ -81,11 +89,11 @@ case "${1:-}" in
       C06|C19)
         build_instr
         if [ "$1" = C19 ]; then
-          go build -race -o .work/vrace ./cmd/vrace 2> .work/build-race.log || { echo "BUILD-ERROR: race-pass binary" >&2; cat .work/build-race.log >&2; exit 2; }
+          go build -race -o "$B/vrace" ./cmd/vrace 2> "$B/build-race.log" || { echo "BUILD-ERROR: race-pass binary" >&2; cat "$B/build-race.log" >&2; exit 2; }
         fi
-        exec ./.work/vcheck-instr -prop "$1" -tier "$tier" ;;
+        exec "$B/vcheck-instr" -prop "$1" -tier "$tier" ;;
     esac
-    exec ./.work/vcheck -prop "$1" -tier "$tier"
+    exec "$B/vcheck" -prop "$1" -tier "$tier"
     ;;
   *)
     echo "usage: $0 <Cxx> <quick|thorough> | replay <file> | setup" >&2
